@@ -22,6 +22,9 @@ package tmlibp2p
 //@   ensures lastdecodefailed(codec) == (result != nil)
 //@   modifies lastdecodefailed(codec), *cm
 
+//@ iface tmcodec.MarshalCodec.MarshalConsensusMessage(codec, cm)
+//@   modifies nothing
+
 // ---- C20: relay (Accept) only what the local handler accepted ----
 
 //@ func Connection.exchangeFeedbackToLibp2p
@@ -45,3 +48,33 @@ package tmlibp2p
 //@   ensures no-handler-never-accepts: id != *selfID && *h == nil ==> result != pubsub.ValidationAccept
 //@   ensures handler-called-at-most-once: ncalls(*h) <= old(ncalls(*h)) + 1
 //@   modifies lastfb(*h), ncalls(*h), lastdecodefailed((*c).codec)
+
+// ---- C20: the validator registered on the consensus topic is the one of the handler last installed ----
+// vfor(f): the consensus handler that the validator closure f (built by libp2pConsensusMessageValidator) consults.
+//@ ghost vfor(ref) iface
+
+//@ func Connection.libp2pConsensusMessageValidator
+//@   trusted
+//@   ensures result != 0 && result != ignoreMessage && fresh(result) && vfor(result) == h
+//@   modifies ghost vfor
+
+// servesHandler(ps, h): what is registered on the topic serves handler h - the ignore-everything validator for "no handler",
+// the handler's own validator otherwise. Registration failures (logged by the code) leave the topic without a validator.
+//@ define servesHandler(ps, h) = regv(ps) == 0 || (h == nil ? regv(ps) == ignoreMessage : (regv(ps) != ignoreMessage && vfor(regv(ps)) == h))
+
+// When a SetConsensusHandler request is acknowledged (Ready closed), no validator of an earlier handler is left on the topic:
+// messages arriving after the handler was cleared or replaced are never judged by, or relayed on the word of, the old one.
+// A request to install a handler carries an open acknowledgement channel that only the background goroutine closes.
+//@ chaninv Connection.setConsensusHandlerRequests(req): req.Ready != nil && !chanclosed(req.Ready)
+
+//@ func Connection.SetConsensusHandler
+//@   property C20
+//@   modifies heap
+
+//@ func Connection.background
+//@   property C20
+//@   requires c.h != nil && c.h.ps != nil && regv(c.h.ps) == 0 && c.codec != nil && c.consensusTopic != nil
+//@   requires c.setConsensusHandlerRequests != nil && !chanclosed(c.setConsensusHandlerRequests)
+//@   loop 1 invariant request-channel-stays-open: !chanclosed(c.setConsensusHandlerRequests)
+//@   site close req.Ready acknowledged-request-is-in-force: servesHandler(c.h.ps, req.Handler)
+//@   modifies heap
